@@ -35,6 +35,26 @@ Inductive fvalue := VNone | VStr (s : string) | VInt (z : Z).
 (* ir.FilterExpr without Src/Line *)
 Inductive fexpr := FE (op : string) (v : fvalue) (args : list fexpr).
 
+Definition fvalue_eqb (a b : fvalue) : bool :=
+  match a, b with
+  | VNone, VNone => true
+  | VStr s, VStr t => String.eqb s t
+  | VInt x, VInt y => Z.eqb x y
+  | _, _ => false
+  end.
+
+Fixpoint fexpr_eqb (a b : fexpr) : bool :=
+  match a, b with
+  | FE o v l, FE o' v' l' =>
+      String.eqb o o' && fvalue_eqb v v' &&
+      (fix go (l l' : list fexpr) : bool :=
+         match l, l' with
+         | [], [] => true
+         | x :: r, y :: r' => fexpr_eqb x y && go r r'
+         | _, _ => false
+         end) l l'
+  end.
+
 Definition fe_op (f : fexpr) : string := match f with FE op _ _ => op end.
 Definition fe_val (f : fexpr) : fvalue := match f with FE _ v _ => v end.
 
